@@ -1,0 +1,59 @@
+// Copyright © 2024 Attestant Limited.
+// Licensed under the Apache License, Version 2.0 (the "License");
+// you may not use this file except in compliance with the License.
+// You may obtain a copy of the License at
+//
+//     http://www.apache.org/licenses/LICENSE-2.0
+//
+// Unless required by applicable law or agreed to in writing, software
+// distributed under the License is distributed on an "AS IS" BASIS,
+// WITHOUT WARRANTIES OR CONDITIONS OF ANY KIND, either express or implied.
+// See the License for the specific language governing permissions and
+// limitations under the License.
+
+//go:build verif
+
+package standard
+
+import (
+	"sort"
+	"time"
+)
+
+// VerifSession is a summary of an in-progress generation.
+type VerifSession struct {
+	Account      string
+	Threshold    uint32
+	Participants []uint64
+	Contributed  []uint64
+}
+
+// VerifAdvanceClock makes every in-progress generation appear to have started d earlier.
+func (s *Service) VerifAdvanceClock(d time.Duration) {
+	s.generationsMu.Lock()
+	defer s.generationsMu.Unlock()
+	for _, g := range s.generations {
+		g.processStarted = g.processStarted.Add(-d)
+	}
+}
+
+// VerifSessions returns a summary of the generations table, sorted by account, without expiring anything.
+func (s *Service) VerifSessions() []VerifSession {
+	s.generationsMu.RLock()
+	defer s.generationsMu.RUnlock()
+	res := make([]VerifSession, 0, len(s.generations))
+	for _, g := range s.generations {
+		sess := VerifSession{Account: g.account, Threshold: g.threshold}
+		for _, p := range g.participants {
+			sess.Participants = append(sess.Participants, p.ID)
+		}
+		for id := range g.sharedSecrets {
+			sess.Contributed = append(sess.Contributed, id)
+		}
+		sort.Slice(sess.Contributed, func(i, j int) bool { return sess.Contributed[i] < sess.Contributed[j] })
+		res = append(res, sess)
+	}
+	sort.Slice(res, func(i, j int) bool { return res[i].Account < res[j].Account })
+
+	return res
+}
